@@ -4,7 +4,7 @@ use rustc_hash::{FxHashMap, FxHashSet};
 
 use std::fs;
 
-use crate::{anyhow_expr, bail_expr};
+use crate::{anyhow_expr, bail, bail_expr};
 
 use super::*;
 
@@ -28,14 +28,19 @@ pub(crate) fn parse_defchordv2(
 
     let all_chords = chunks
         .by_ref()
-        .flat_map(|chunk| match chunk[0] {
+        .map(|chunk| match chunk[0] {
             // Match a line like
             // (include filename.txt) () 100 all-released (layer1 layer2)
             SExpr::List(Spanned {
                 t: ref exprs,
                 span: _,
             }) if matches!(exprs.first(), Some(SExpr::Atom(a)) if a.t == "include") => {
-                let file_name = exprs[1].atom(s.vars()).unwrap();
+                let Some(file_name) = exprs.get(1).and_then(|name| name.atom(s.vars())) else {
+                    return Err(anyhow_expr!(
+                        &chunk[0],
+                        "include in defchordsv2 expects a file name: (include filename)"
+                    ));
+                };
                 let chord_translation = ChordTranslation::create(
                     file_name,
                     &chunk[2],
@@ -43,9 +48,12 @@ pub(crate) fn parse_defchordv2(
                     &chunk[4],
                     &s.layers[0][0],
                 );
-                let chord_definitions = parse_chord_file(file_name).unwrap();
+                let chord_definitions = parse_chord_file(file_name)
+                    .map_err(|e| anyhow_expr!(&chunk[0], "{}", e.msg))?;
                 let processed = chord_definitions.iter().map(|chord_def| {
-                    let chunk = chord_translation.translate_chord(chord_def);
+                    let chunk = chord_translation
+                        .translate_chord(chord_def)
+                        .map_err(|e| anyhow_expr!(&chunk[0], "{}", e.msg))?;
                     parse_single_chord(&chunk, s, &mut all_participating_key_sets)
                 });
                 Ok::<_, ParseError>(processed.collect_vec())
@@ -56,7 +64,8 @@ pub(crate) fn parse_defchordv2(
                 &mut all_participating_key_sets,
             )]),
         })
-        .flat_map(|vec_result| vec_result.into_iter())
+        // An error that prevented looking at the chords at all is reported like a failed chord.
+        .flat_map(|vec_result| vec_result.unwrap_or_else(|e| vec![Err(e)]))
         .collect::<Vec<Result<_>>>();
     let unsuccessful = all_chords
         .iter()
@@ -195,9 +204,8 @@ fn parse_disabled_layers(disabled_layers: &SExpr, s: &ParserState) -> Result<Vec
 
 fn parse_chord_file(file_name: &str) -> Result<Vec<ChordDefinition>> {
     let input_data = fs::read_to_string(file_name)
-        .unwrap_or_else(|_| panic!("Unable to read file {}", file_name));
-    let parsed_chords = parse_input(&input_data).unwrap();
-    Ok(parsed_chords)
+        .map_err(|e| anyhow!("Unable to read chord file {file_name}: {e}"))?;
+    parse_input(&input_data)
 }
 
 fn parse_input(input: &str) -> Result<Vec<ChordDefinition>> {
@@ -206,12 +214,12 @@ fn parse_input(input: &str) -> Result<Vec<ChordDefinition>> {
         .filter(|line| !line.trim().is_empty() && !line.trim().starts_with("//"))
         .map(|line| {
             let mut caps = line.split('\t');
-            let error_message = format!(
-                "Each line needs to have an action separated by a tab character, got '{}'",
-                line
-            );
-            let keys = caps.next().expect(&error_message);
-            let action = caps.next().expect(&error_message);
+            let (Some(keys), Some(action)) = (caps.next(), caps.next()) else {
+                bail!(
+                    "Each line needs to have an action separated by a tab character, got '{}'",
+                    line
+                );
+            };
             Ok(ChordDefinition {
                 keys: keys.to_string(),
                 action: action.to_string(),
@@ -316,7 +324,7 @@ impl<'a> ChordTranslation<'a> {
         // Wait 50ms for one-shot Shift to release
         // TODO: This would be better handled by a (multi (release-key lsft)(release-key rsft))
         // but I haven't gotten that to work yet.
-        action_strings.insert(1, "50".to_string());
+        action_strings.insert(action_strings.len().min(1), "50".to_string());
         action_strings.extend_from_slice(&[
             "sldr".to_string(),
             "spc".to_string(),
@@ -325,20 +333,29 @@ impl<'a> ChordTranslation<'a> {
         action_strings
     }
 
-    fn translate_chord(&self, chord_def: &ChordDefinition) -> Vec<SExpr> {
+    fn translate_chord(&self, chord_def: &ChordDefinition) -> Result<Vec<SExpr>> {
         let sexpr_string = format!(
             "(({}) (macro {}))",
             self.participant_keys(&chord_def.keys).join(" "),
             self.action(&chord_def.action).join(" ")
         );
-        let mut participant_action = sexpr::parse(&sexpr_string, self.file_name).unwrap()[0]
-            .t
-            .clone();
+        // The keys and the action of the chord file are inserted as they are. If they contain
+        // parentheses or quotes the result may be something else than `((keys..) (macro ..))`.
+        let parsed = sexpr::parse(&sexpr_string, self.file_name)?;
+        let mut participant_action = match parsed.as_slice() {
+            [chord] if chord.t.len() == 2 => chord.t.clone(),
+            _ => bail!(
+                "Could not use the chord '{}' with action '{}' from {}",
+                chord_def.keys,
+                chord_def.action,
+                self.file_name
+            ),
+        };
         participant_action.extend_from_slice(&[
             self.timeout.clone(),
             self.release_behaviour.clone(),
             self.disabled_layers.clone(),
         ]);
-        participant_action
+        Ok(participant_action)
     }
 }
